@@ -84,8 +84,8 @@ def make_domain(rng, n, kind):
         b = np.array([1.0] * n + [-0.5] * n)
         K = [('+', 2 * n)]
     elif kind == 'halfspace':
-        A = np.array([[float(rng.choice([1, -1, 2])) for _ in range(n)]])
-        b = np.array([float(rng.choice([0, 1, 3]))])
+        A = np.array([[float(rng.choice([1, -1, 2, 0.5, -1.5])) for _ in range(n)]])
+        b = np.array([float(rng.choice([0, 1, 3, 0.5]))])
         K = [('+', 1)]
     elif kind == 'ball':
         A = np.vstack([np.zeros((1, n)), np.eye(n)])
@@ -217,6 +217,9 @@ def build_primal(rng):
     cover_mode = rng.choice(['auto', 'auto', 'full', 'user'])
     kwargs = {'settings': settings}
     alpha_np = np.array([[float(a) for a in r] for r in alpha]).reshape(m, n)
+    alpha_arg = alpha_np
+    if rng.random() < 0.3 and np.all(alpha_np == np.round(alpha_np)):
+        alpha_arg = alpha_np.astype(int)         # exponents handed over as an integer array
     if cover_mode != 'auto':
         covers = {}
         for i in range(m):
@@ -227,7 +230,7 @@ def build_primal(rng):
     try:
         with warnings.catch_warnings(), adversarial_globals(settings):
             warnings.simplefilter('ignore')
-            con = cl.PrimalSageCone(c, alpha_np, X, 'con', **kwargs)
+            con = cl.PrimalSageCone(c, alpha_arg, X, 'con', **kwargs)
     except RuntimeError as e:
         return {'error': 'construction: ' + str(e)[:60]}
     ech = con.ech
@@ -302,9 +305,10 @@ def build_dual(rng):
             covers[i] = cov
         kwargs['covers'] = covers
     try:
+        alpha_arg = alpha_np.astype(int) if (rng.random() < 0.3 and np.all(alpha_np == np.round(alpha_np))) else alpha_np
         with warnings.catch_warnings(), adversarial_globals(settings):
             warnings.simplefilter('ignore')
-            con = cl.DualSageCone(v, alpha_np, X, 'dcon', **kwargs)
+            con = cl.DualSageCone(v, alpha_arg, X, 'dcon', **kwargs)
     except RuntimeError as e:
         return {'error': 'construction: ' + str(e)[:60]}
     ech = con.ech
